@@ -21,6 +21,7 @@ package grpcgcp
 import (
 	"context"
 	"fmt"
+	"math"
 	"reflect"
 	"strings"
 	"sync"
@@ -131,8 +132,12 @@ func (p *gcpPicker) Pick(info balancer.PickInfo) (balancer.PickResult, error) {
 // exponential backoff when RPCs keep deadline exceeded after consecutive reconnections.
 // Must be called holding the balancer mutex lock (read or write).
 func (p *gcpPicker) unresponsiveWindow(scRef *subConnRef) time.Duration {
-	factor := uint32(1 << scRef.refreshCnt)
-	return time.Millisecond * time.Duration(factor*p.gb.cfg.GetChannelPool().GetUnresponsiveDetectionMs())
+	window := time.Millisecond * time.Duration(p.gb.cfg.GetChannelPool().GetUnresponsiveDetectionMs())
+	// Saturate instead of overflowing: a wrapped product would shorten the window.
+	if cnt := scRef.refreshCnt; cnt < 63 && window <= math.MaxInt64>>cnt {
+		return window << cnt
+	}
+	return math.MaxInt64
 }
 
 func (p *gcpPicker) detectUnresponsive(ctx context.Context, scRef *subConnRef, callStarted time.Time, rpcErr error) {
